@@ -400,7 +400,8 @@ func c11apply(cs c11Case, it *c11item, p *c11parts) [][]byte {
 		return frames
 	case "cellblock/trailingGarbage":
 		p.cells = append(p.cells, []byte{1, 2, 3})
-	case "cellCount/plus1", "cellCount/minus1", "cellCount/huge", "cellCount/wrap8", "cellCount/wrap16", "cellCount/wrap24", "cellCount/wrap32", "cellCount/wrap48":
+	case "cellCount/plus1", "cellCount/minus1", "cellCount/huge", "cellCount/wrap8", "cellCount/wrap16", "cellCount/wrap24", "cellCount/wrap32", "cellCount/wrap48",
+		"cellCount/neg1", "cellCount/neg3", "cellCount/minInt":
 		f := func(x int32) int32 {
 			switch cs.Op {
 			case "plus1":
@@ -417,6 +418,12 @@ func c11apply(cs c11Case, it *c11item, p *c11parts) [][]byte {
 				return (1<<32 + 32) / 32
 			case "wrap48":
 				return (1<<32 + 32) / 48
+			case "neg1":
+				return -1
+			case "neg3":
+				return -3
+			case "minInt":
+				return -1 << 31
 			}
 			return 0x7fffffff
 		}
